@@ -12,6 +12,10 @@ pub struct MutexGuard<'a, T> { _p: core::marker::PhantomData<&'a T> }
 #[verifier::external_body]
 #[verifier::reject_recursive_types(T)]
 pub struct PoisonError<T> { _p: core::marker::PhantomData<T> }
+#[verifier::external]
+impl<T> core::fmt::Debug for PoisonError<T> {
+    fn fmt(&self, _f: &mut core::fmt::Formatter<'_>) -> core::fmt::Result { Ok(()) }
+}
 
 impl<T> Mutex<T> {
     pub uninterp spec fn cur(&self) -> T;
